@@ -187,8 +187,12 @@ def plan(tier, seed):
         n = len(b)
         step = 1
         cases.append({"gen": "trunc", "ref": name, "lo": 0, "hi": n, "step": step, "full": thorough})
-        cases.append({"gen": "flip", "ref": name, "per_payload": 3 if thorough else 1, "full": thorough, "seed": mix(seed, "flip", name)})
-        cases.append({"gen": "field", "ref": name, "full": thorough})
+        for lo in range(0, n, 40):
+            cases.append({"gen": "flip", "ref": name, "per_payload": 3 if thorough else 1, "full": thorough,
+                          "seed": mix(seed, "flip", name, lo), "lo": lo, "hi": min(n, lo + 40)})
+        nrec = len(codefile.parse(b, strict=False).records)
+        for ri in range(-1, nrec):
+            cases.append({"gen": "field", "ref": name, "full": thorough, "rec": ri})
     # split E1 cases into chunks for parallelism
     out = []
     for c in cases:
@@ -213,12 +217,23 @@ def plan(tier, seed):
     tests = corpus.tests()
     for t in tests:
         nl = t.src.count(b"\n")
-        stride = 1 if thorough else 16
-        off = mix(seed, "eof", t.name) % stride
-        lines = list(range(off, nl + 1, stride))
-        chunk = 60
-        for i in range(0, len(lines), chunk):
-            cases.append({"gen": "eof", "test": t.name, "lines": lines[i:i + chunk]})
+        cap = 2500 if thorough else 24
+        if nl + 1 <= cap:
+            lines = list(range(0, nl + 1))
+        else:  # seeded sample of line boundaries (only t_m16 exceeds the thorough cap)
+            lines = sorted(Rng(mix(seed, "eof", t.name)).sample(range(0, nl + 1), cap))
+        # cost-bounded chunks: a cut at line n assembles about n/nl of the source
+        budget = 250000
+        cur, cost = [], 0
+        for n in lines:
+            c = 2000 + len(t.src) * n // max(nl, 1)
+            if cur and cost + c > budget:
+                cases.append({"gen": "eof", "test": t.name, "lines": cur})
+                cur, cost = [], 0
+            cur.append(n)
+            cost += c
+        if cur:
+            cases.append({"gen": "eof", "test": t.name, "lines": cur})
     # E6 byte-level mutation of golden sources
     n6 = 20000 if thorough else 1500
     for i in range(0, n6, 25):
@@ -295,6 +310,14 @@ def run_one(sim, acc, prog, sc, origin, kind, nontrivial_off=None):
     acc.bump(acc.stats, "%s:%s" % (prog, r.outcome if r.kind != 1 else "signal"))
     acc.bump(acc.faults, kind)
     cls = oracle.classify(prog, r, san)
+    if cls and cls.endswith("/hang/cpu-limit"):
+        # the CPU backstop is the only budget that is not a deterministic step count: a verdict never
+        # rests on it unless an immediate re-run of the same scenario hits it again
+        r2, san2 = sim.run(prog, sc, "asan")
+        acc.runs += 1
+        if oracle.classify(prog, r2, san2) != cls:
+            acc.bump(acc.probes, "cpu_limit_not_reproduced")
+            r, san, cls = r2, san2, oracle.classify(prog, r2, san2)
     if cls and cls not in acc.seen_cls:
         acc.seen_cls.add(cls)
         acc.violations.append({"class": cls, "detail": "%s %s -> %s" % (prog, " ".join(sc["argv"][:8]), r.outcome),
@@ -387,7 +410,7 @@ def run_case(sim, case):
         mask = payload_mask(b)
         rng = Rng(case["seed"])
         k = 0
-        for i in range(len(b)):
+        for i in range(case["lo"], case["hi"]):
             bits = range(8) if not mask[i] else rng.sample(range(8), case["per_payload"])
             for bit in bits:
                 m = b[:i] + bytes([b[i] ^ (1 << bit)]) + b[i + 1:]
@@ -397,7 +420,10 @@ def run_case(sim, case):
     elif g == "field":
         b = refs[case["ref"]]
         k = 0
+        want = "magic" if case["rec"] < 0 else "rec%d." % case["rec"]
         for desc, m in field_edits(b, case["full"]):
+            if not desc.startswith(want):
+                continue
             k += 1
             mutated_tools(sim, acc, m, "E3 %s %s" % (case["ref"], desc), "field-edit", False, k, 0)
         acc.sample = {"space": "E3", "ref": case["ref"], "edits": k}
